@@ -217,7 +217,9 @@ func (o *renderOpts) expr(ts []tok) string {
 }
 
 func (o *renderOpts) comment() string {
-	c := []string{"; a comment", ";", ";; x equ 5", "; mov 0, 1", ";redcode", "; end"}
+	// (the last five only begin with the letters of a keyword: they are plain comments)
+	c := []string{"; a comment", ";", ";; x equ 5", "; mov 0, 1", ";redcode", "; end",
+		";nameless wonder", ";authority x", ";strategyxyz", ";asserted by me", ";assertion 0"}
 	return c[o.r.Intn(len(c))]
 }
 
@@ -317,7 +319,11 @@ func (o *renderOpts) items(sb *strings.Builder, items []item) {
 		case "assert":
 			sb.WriteString(";assert " + o.expr(it.Toks) + "\n")
 		case "meta":
-			sb.WriteString(";" + it.K + " " + it.V + "\n")
+			sb.WriteString(";" + it.K + " " + it.V)
+			if o.rich && !o.plain && o.r.Intn(4) == 0 {
+				sb.WriteString([]string{" ", "  \t", "\t"}[o.r.Intn(3)]) // trailing blanks are spacing
+			}
+			sb.WriteString("\n")
 		case "for":
 			for _, l := range it.Labels {
 				sb.WriteString(o.name(l))
